@@ -11,7 +11,7 @@ from vlib import Rng
 BOUNDARY = ["0", "1", "len-1", "len", "len+1", "2^31", "2^32-1"]
 SAMPLES = ["test.dmp", "linux-mini.dmp", "simple-crashpad.dmp", "invalid-parameter.dmp", "pipeline-inlines-macos-segv.dmp"]
 MODEL_FIELDS = ["R", "SI", "TL", "ML", "UM", "MEM", "M64", "MI", "TI", "TN", "HD", "EX", "EXP", "EXC",
-                "TLP", "MS", "LC", "LS", "LR", "LE", "LL", "MA", "CP", "SIS", "AS", "BP", "MB", "SE", "MC"]
+                "TLP", "MS", "LC", "LS", "LR", "LE", "LL", "MA", "CP", "SIS", "AS", "BP", "MB", "SE", "MC", "RM", "RI", "CA", "TE"]
 # tighter than the brief's max(1 MiB, 64*len^2): the largest single request is LINEAR in the input
 PK_FLOOR = 64 * 1024
 PK_PER_BYTE = 16
@@ -716,6 +716,79 @@ class Gen:
                             d.stream(ST["mac_crash"], hdr)
                             self.dump("mac_crash_product", d.finish())
 
+    # ------------------------------------------------------------- round 4: queries (ranges, crash address/reason, last_error) as products
+    @staticmethod
+    def error_enums():
+        """discriminants of the exception-code enums of minidump-common/src/errors/*.rs, per file"""
+        out = {}
+        for name in ("linux", "macos", "windows"):
+            src = open(os.path.join(vlib.REPO, "minidump-common", "src", "errors", name + ".rs"), encoding="utf-8").read()
+            vals = set()
+            for m in re.finditer(r"^\s+[A-Za-z_][A-Za-z_0-9]* = (0x[0-9a-fA-F_]+|[0-9_]+)(?:u32|i32|u64)?,", src, re.M):
+                vals.add(int(m.group(1).replace("_", ""), 0) & 0xffffffffffffffff)
+            out[name] = sorted(vals)
+        return out
+
+    def round4(self, ncodes):
+        rng = self.rng
+        T64 = 1 << 64
+        enums = self.error_enums()
+        # (a) exception code x flags x information: every enum discriminant of the three OS families is used as a code AND as a
+        #     subcode; the harness asks get_crash_reason / Display / get_crash_address for 9 OS x 10 CPU on each
+        mac_codes = [c for c in enums["macos"] if c <= 13] + [0x43507378, 11, 12, 14]
+        lin_codes = list(range(0, 34)) + [0xffffffff, 0x80000000]
+        win_codes = [c for c in enums["windows"] if c >= 0x40000000][:] + [0xC0000005, 0xC0000006, 0xC0000409, 0xC000001D, 0xE06D7363, 0x8007000E, 0xC007000E, 0x80070000, 0x0007FFFF]
+        subcodes = sorted(set(enums["macos"] + enums["linux"] + [k << 29 for k in range(8)] + [(k << 29) | 0x1fffffff for k in range(8)]
+                              + [0xfffffffa, 0xffffffc4, 0x80, 0x7fffffff, 0xffffffff]))
+        infos = [0, 1, 2, 8, 0xff, 0xc0000034, 0xC0000005, 1 << 31, 1 << 32, (1 << 63), T64 - 1] + [c for c in enums["windows"] if c < 0x100][:80]
+        shapes = [(t << 61) | (f << 58) | x for t in range(8) for f in (0, 1, 2, 3, 7) for x in (0, 0x7f, (1 << 58) - 1)]
+        pools = [("mac", mac_codes, subcodes), ("linux", lin_codes, subcodes), ("win", win_codes, [0, 1, 0xffffffff])]
+        for i in range(ncodes):
+            fam, codes, subs = pools[i % 3]
+            be = (i // 3) % 4 == 3
+            d = Dump(be, ndir=2)
+            code = codes[(i // 3) % len(codes)] if i < 3 * len(codes) and fam != "win" else rng.choice(codes)
+            flags = rng.choice(subs)
+            info = [rng.choice(infos + shapes[:: 7]) for _ in range(15)]
+            if fam == "mac" and rng.chance(1, 2):
+                info[0] = rng.choice(shapes)
+                info[1] = rng.choice(shapes + infos)
+            if fam == "win" and rng.chance(1, 3):
+                info[2] = rng.choice(enums["windows"])
+            d.stream(ST["system_info"], d.sysinfo(rng.choice([0, 9, 12, 5, 0x8003, 3, 0x8001, 0x8002, 1, 0xffff]),
+                                                  platform=rng.choice([2, 0x8201, 0x8101, 0x8102, 0x8203, 0x8202, 0x8204, 0x8205, 0])))
+            ex = bytearray(d.exception(1, code=code & 0xffffffff, nparams=rng.choice([0, 1, 2, 3, 4, 15, 16, 0xffffffff]), addr=rng.choice([0, 0x401000, 1 << 32, T64 - 1, 0xffffffff80000000]), info=info))
+            ex[12:16] = d.u32(flags & 0xffffffff)
+            d.stream(ST["exception"], bytes(ex))
+            self.dump("exception_code_product", d.finish())
+        # (b) memory_range / last_error / crash address at both ends of the address space
+        edges = [0, 1, 0xffffffff, 1 << 32, T64 - 105, T64 - 104, T64 - 53, T64 - 52, T64 - 17, T64 - 16, T64 - 2, T64 - 1]
+        sizes = [0, 1, 2, 15, 16, 17, 104, 0xffffffff, 1 << 32, T64 - 1]
+        for be in (False, True):
+            for i, base in enumerate(edges):
+                d = Dump(be, ndir=6)
+                data = d.add(bytes(range(64)))
+                # thread teb at the edge, its stack at the edge; memory regions and memory-info entries around the edge
+                d.stream(ST["system_info"], d.sysinfo([0, 9, 12, 5][i % 4], platform=2))
+                threads = [d.thread(k + 1, ((base + k) % T64, 32, data), (0, 0), teb=(base + k) % T64) for k in range(4)]
+                d.stream(ST["thread_list"], d.list(threads))
+                d.stream(ST["memory_list"], d.list([d.u64((base + k) % T64) + d.u32(sz, data) for k, sz in enumerate([1, 4, 16, 17, 52, 53, 64, 0])]))
+                ents = [d.u64((base + (k % 3)) % T64, 0) + d.u32(4, 0) + d.u64(sizes[(i + k) % len(sizes)]) + d.u32(0x1000, 4, 0x20000, 0) for k in range(8)]
+                d.stream(ST["memory_info"], d.exlist(ents, 48, hdr=16, wide=True))
+                mods = [d.module((base + k) % T64, [1, 16, 17, 0xffffffff][k], 0) for k in range(4)]
+                d.stream(ST["module_list"], d.list(mods))
+                d.stream(ST["unloaded"], d.exlist([d.u64((base + k) % T64) + d.u32([1, 16, 17, 0xffffffff][k], 0, 0, 0) for k in range(4)], 24))
+                info = [1, base] + [0] * 13
+                d.stream(ST["exception"], d.exception(1, code=[0xC0000005, 0xC0000006, 0xC0000409, 11][i % 4], nparams=[2, 1, 2, 0xffffffff, 0][i % 5], addr=edges[-1 - i], info=info))
+                self.dump("query_edge_product", d.finish())
+            # Memory64 regions whose base + size reaches / passes the top of the address space
+            for base in (0, T64 - 64, T64 - 33, T64 - 32, T64 - 1):
+                d = Dump(be, ndir=2)
+                data = d.add(bytes(range(64)))
+                d.stream(ST["system_info"], d.sysinfo(9))
+                d.stream(ST["memory64"], d.u64(3, data) + d.u64(base, 32) + d.u64((base + 32) % T64, 0) + d.u64((base + 31) % T64, 32))
+                self.dump("query_edge_product", d.finish())
+
     # ------------------------------------------------------------- base dumps from minidump-synth and /repo/testdata
     def synth_and_samples(self, per_synth, per_sample):
         rng = self.rng
@@ -760,7 +833,7 @@ class Gen:
 class C01(PropBase):
     pid = "C01"
     coq_dirs = ["Base", "C01"]
-    translators = []
+    translators = ["c01_sites.py"]
     bins = ["c01"]
     impl_timeout = 240
     impl_mem_gb = 4
@@ -818,9 +891,14 @@ class C01(PropBase):
         g.exercised(500 if q else 6000)
         g.round2(400 if q else 5000)
         g.round3()
+        g.round4(1500 if q else 24000)
         g.synth_and_samples(700 if q else 8000, 160 if q else 2500)
         g.random_bytes(200 if q else 3000)
-        return g.cases + g.late, g.dist, False
+        # the runner shards the case list into NCPU contiguous ranges: deal the cases round-robin so that every shard gets the
+        # same mix of cheap and expensive cases (the exhaustive blocks over 2 KB dumps are otherwise all in the first shards)
+        k = vlib.NCPU
+        dealt = [c for i in range(k) for c in g.cases[i::k]]
+        return dealt + g.late, g.dist, False
 
     # ---------------------------------------------------------------- canonical forms
     @staticmethod
@@ -907,6 +985,38 @@ class C01(PropBase):
                         out.append({"case": c, "profile": prof, "found_input": False,
                                     "what": "correspondence: the model's ledger records a with_capacity of %d bytes, the largest request measured was %s" % (led, fa["pk"])})
         ctx["info"]["ledger_lower_bound_checked"] = checked
+        # distribution per stream / step tag and outcome class, as the real code answered (debug profile; release likewise in *_release)
+        for prof, answers in ctx["impl"].items():
+            table, slow, pkmax = {}, 0, 0
+            for c, a in zip(ctx["cases"], answers):
+                if a is None or c == "SIZES" or a.startswith("P;;"):
+                    continue
+                f = self.fields(a)
+                for k, v in f.items():
+                    if k in ("len", "pk", "live", "ms"):
+                        continue
+                    cls = "panic" if v.startswith("!P") else v.split(":")[0] if not v.startswith("err:") else v
+                    if cls == "-":
+                        cls = "absent"
+                    row = table.setdefault(k, {})
+                    row[cls] = row.get(cls, 0) + 1
+                try:
+                    pkmax = max(pkmax, int(f.get("pk", "0")))
+                    slow = max(slow, int(f.get("ms", "0")))
+                except ValueError:
+                    pass
+            ctx["info"]["outcomes_by_step_" + prof] = {k: dict(sorted(v.items())) for k, v in sorted(table.items())}
+            ctx["info"]["max_single_allocation_" + prof] = pkmax
+            ctx["info"]["max_case_ms_" + prof] = slow
+        # the site scan (translate/c01_sites.py) in numbers
+        try:
+            txt = open(os.path.join(vlib.COQ, "C01", "Sites.v")).read()
+            ctx["info"]["site_groups"] = {c: len(re.findall(r"\), %s \"" % c, txt)) for c in ("Covered", "Safe", "Searched", "Unreviewed")}
+            gen = open(os.path.join(vlib.COQ, "Gen", "C01Sites.v")).read()
+            m = re.search(r"scanned_site_count : nat := (\d+)", gen)
+            ctx["info"]["sites_scanned"] = int(m.group(1)) if m else None
+        except OSError:
+            pass
         return out
 
 
